@@ -1,9 +1,161 @@
+/-
+  C34 — Data sampling respects concurrency limits and recency order.
+
+  Property theorems over the worker model `Lumina.Model.Daser` (transcription of
+  `/repo/node/src/daser.rs`), for ALL states reachable by ANY history of stimuli (store inserts and
+  removals, peer-count changes, pruner commands and reports, network answers in any order) and
+  ANY output of `random_indexes`.  The property itself is the monitor `Lumina.Spec.C34`
+  (`startOK`: below the limit / limit + allowance for the newest, highest eligible height, inside
+  the window, not prunable under a backlog ≥ 512); `view34` is what the monitor sees of a state.
+  Lemmas: `Lumina/Proofs/Daser.lean`, `Lumina/Proofs/DaserRanges.lean`.
+-/
 import Lumina.Gen.C34
-import Lumina.Model.DaserView
+import Lumina.Proofs.Daser
 
 namespace Lumina.Props.C34
+open Lumina.Model.Daser Lumina.Proofs.Daser
+open Lumina.Model.Ranges (U64_MAX)
 
 /-- the pruner backlog at which sampling of prunable blocks pauses is the 512 the property states -/
 theorem pruner_threshold_is_512 : Lumina.Gen.C34.PRUNER_THRESHOLD = 512 := by decide
+
+/-- a freshly created worker (any limits, any header chain) satisfies the invariant -/
+theorem init_ok (limit extra maxSamples : Nat) (hdr : Nat → Hdr) :
+    StateOK (init { limit := limit, extra := extra, maxSamples := maxSamples,
+                    prunerThreshold := Lumina.Gen.C34.PRUNER_THRESHOLD } hdr) :=
+  ⟨inv_init _ _, pruner_threshold_is_512⟩
+
+/-- **one stimulus.**  From any state satisfying the invariant, for any stimulus with `u64` arguments and
+    any outputs of `random_indexes`: the invariant holds afterwards and the monitor accepts every
+    action of the worker — in particular every block it starts satisfies `Spec.C34.startOK`. -/
+theorem step_accepted (s : State) (ev : Ev) (rnd : List (List (Nat × Nat))) (hs : StateOK s) (hwf : EvWF ev) :
+    Lumina.Spec.C34.specOK (view34 s) ev (step s ev rnd).2 = true ∧ StateOK (step s ev rnd).1 :=
+  ⟨(step_ok hs ev hwf rnd).2, (step_ok hs ev hwf rnd).1⟩
+
+/-- **every history.**  Whatever the environment does, in whatever order, for however long: every
+    action of the worker is accepted by the monitor. -/
+theorem history_accepted (limit extra maxSamples : Nat) (hdr : Nat → Hdr)
+    (evs : List (Ev × List (List (Nat × Nat)))) (hwf : ∀ e ∈ evs, EvWF e.1) :
+    accepts34 (init { limit := limit, extra := extra, maxSamples := maxSamples,
+                      prunerThreshold := Lumina.Gen.C34.PRUNER_THRESHOLD } hdr) evs = true :=
+  (run_ok evs _ (init_ok limit extra maxSamples hdr) hwf).1
+
+/-- the acceptance of a start, spelled out: whenever the monitor, in view `v`, accepts a
+    `metaUpd h` (the first observable action of starting block `h`), `startOK v h` holds -/
+theorem accepted_start_is_ok (v : Lumina.Spec.C34.View) (h : Nat) (c : List Share) (ts : List Tok)
+    (hacc : (Lumina.Spec.C34.walk v (Tok.metaUpd h c :: ts)).isSome = true) :
+    Lumina.Spec.C34.startOK v h = true := by
+  simp only [Lumina.Spec.C34.walk, Lumina.Spec.C34.onTok] at hacc
+  cases hs : Lumina.Spec.C34.startOK v h
+  · rw [hs] at hacc; simp at hacc
+  · rfl
+
+/-- what `startOK` says, clause by clause (so that the Boolean checker cannot hide anything) -/
+theorem startOK_spelled_out (v : Lumina.Spec.C34.View) (h : Nat) (hok : Lumina.Spec.C34.startOK v h = true) :
+    v.stored h = true ∧ v.known h = true ∧ v.inProgress h = false ∧ v.promised h = false ∧ v.timedOut h = false ∧
+    (∀ x, h < x → x ≤ v.newest.getD 0 →
+      ¬ (v.known x = true ∧ v.inProgress x = false ∧ v.promised x = false ∧ v.timedOut x = false)) ∧
+    v.fresh h = true ∧
+    ¬ (h ≤ v.highestPrunable.getD 0 ∧ 512 ≤ v.numPrunable) ∧
+    (v.nInProgress < v.limit ∨ (v.newest = some h ∧ v.nInProgress < v.limit + v.extra)) := by
+  simp only [Lumina.Spec.C34.startOK, Lumina.Spec.C34.eligible, Bool.and_eq_true, Bool.or_eq_true, Bool.not_eq_true',
+    List.all_eq_true, decide_eq_true_eq, Bool.and_eq_false_imp, beq_iff_eq, Bool.not_eq_eq_eq_not, Bool.not_true,
+    decide_eq_false_iff_not] at hok
+  obtain ⟨⟨⟨⟨⟨⟨_, hst⟩, ⟨⟨⟨hk, hip⟩, hpr⟩, hto⟩⟩, habove⟩, hfr⟩, hbl⟩, hlim⟩ := hok
+  refine ⟨hst, hk, hip, hpr, hto, ?_, hfr, ?_, ?_⟩
+  · rintro x h1 h2 ⟨a, b, c, d⟩
+    have hx : x ∈ Lumina.Spec.C34.above v h := by
+      simp only [Lumina.Spec.C34.above, List.mem_range'_1]; omega
+    have := habove x hx
+    simp only [Lumina.Spec.C34.eligible, a, b, c, d] at this
+    simp at this
+  · rintro ⟨a, b⟩; exact absurd b (by have := hbl a; omega)
+  · rcases hlim with hl | ⟨hn, hl⟩
+    · exact Or.inl hl
+    · exact Or.inr ⟨hn, hl⟩
+
+/-- the number of blocks in progress never exceeds limit + allowance -/
+theorem in_progress_bounded (s : State) (hs : StateOK s) : s.w.futs.length ≤ s.cfg.limit + s.cfg.extra :=
+  hs.inv.futs_le
+
+/-- `|ongoing| = |sampling_futs|`: `BlockRanges::len` of `ongoing` (which cannot overflow) is the number of
+    sampling futures, and `ongoing` is exactly the set of their heights, one future per height -/
+theorem ongoing_matches_futures (s : State) (hs : StateOK s) :
+    Lumina.Model.Ranges.len s.w.ongoing = .ok s.w.futs.length ∧
+    (∀ x, Lumina.Model.Ranges.mem s.w.ongoing x ↔ ∃ f ∈ s.w.futs, f.height = x) ∧
+    (s.w.futs.map (·.height)).Nodup :=
+  ⟨ongoing_len hs.inv, hs.inv.ongoing_eq, hs.inv.nodup⟩
+
+/-- the queue is exactly the eligible set: known stored, not known sampled (`cand`), not timed out,
+    not in progress, not promised to the pruner -/
+theorem queue_is_eligible_set (s : State) (hs : StateOK s) (x : Nat) :
+    Lumina.Model.Ranges.mem s.w.queue x ↔
+      (Lumina.Model.Ranges.mem s.w.cand x ∧ ¬ Lumina.Model.Ranges.mem s.w.timedOut x ∧
+       ¬ Lumina.Model.Ranges.mem s.w.ongoing x ∧ ¬ Lumina.Model.Ranges.mem s.w.willBePruned x) := by
+  have := hs.inv.queue_eq x
+  simpa using this
+
+/-- no `expect` fails and no loop bound of the model is hit: a step of a live worker either succeeds
+    or `random_indexes` does not terminate on the given draws (only `WantToPrune(0)` panics) -/
+theorem no_panic (s : State) (ev : Ev) (rnd : List (List (Nat × Nat))) (hs : StateOK s) (hal : s.w.dead = false)
+    (hwf : EvWF ev) (hp0 : ev ≠ .prune 0) (e : Fail) (he : stepM s ev rnd = .error e) : e = .diverge :=
+  stepM_no_panic hs.inv hal hs.thr ev hwf hp0 rnd e he
+
+/-- … and `WantToPrune(0)` does kill the worker task (`.expect("invalid height")`) -/
+theorem prune_zero_panics (s : State) (rnd : List (List (Nat × Nat))) (hs : StateOK s) :
+    stepM s (.prune 0) rnd = .error .panic :=
+  Lumina.Proofs.Daser.prune_zero_panics hs.inv rnd
+
+/-! ### non-vacuity: concrete histories (limit 1, allowance 1; chain of width-2 headers, height 1 outside
+    the sampling window) -/
+
+def cfg0 : Cfg := { limit := 1, extra := 1, maxSamples := 16, prunerThreshold := Lumina.Gen.C34.PRUNER_THRESHOLD }
+def hdr0 : Nat → Hdr := fun h => { width := 2, fresh := decide (1 < h) }
+def s0 : State := init cfg0 hdr0
+def g2 : List Share := [(0,0),(0,1),(1,0),(1,1)]
+
+/-- headers 1..3 arrive, then a peer connects: only block 3 (the newest: limit + allowance = 2) is
+    started; block 2 has to wait (1 in progress ≥ limit 1) -/
+def h1 : List (Ev × List (List (Nat × Nat))) := [(.insert 1 3, []), (.peers 1, [[], []])]
+
+set_option maxRecDepth 100000 in
+example : (run s0 h1).2 = [[], [Tok.scan, Tok.metaUpd 3 g2, Tok.started 3 2 g2, Tok.req 3 g2]] := by decide
+
+/-- a new head 4 arrives: started on the allowance (1 in progress < 1 + 1); then 4 completes successfully
+    and 3 times out; 2 is started, then 1 is found outside the window and dropped for good -/
+def h2 : List (Ev × List (List (Nat × Nat))) :=
+  h1 ++ [(.insert 4 4, [[]]),
+         (.answer 4 (0,0) false, []), (.answer 4 (0,1) false, []), (.answer 4 (1,0) false, []), (.answer 4 (1,1) false, []),
+         (.answer 3 (0,0) true, []), (.answer 3 (0,1) false, []), (.answer 3 (1,0) false, []), (.answer 3 (1,1) false, [[]]),
+         (.answer 2 (0,0) false, []), (.answer 2 (0,1) false, []), (.answer 2 (1,0) false, []), (.answer 2 (1,1) false, [[]])]
+
+set_option maxRecDepth 100000 in
+example : (run s0 h2).2.drop 2 =
+    [[Tok.scan, Tok.metaUpd 4 g2, Tok.started 4 2 g2, Tok.req 4 g2],
+     [Tok.share 4 (0,0) false], [Tok.share 4 (0,1) false], [Tok.share 4 (1,0) false],
+     [Tok.share 4 (1,1) false, Tok.result 4 false, Tok.mark 4],
+     [Tok.share 3 (0,0) true], [Tok.share 3 (0,1) false], [Tok.share 3 (1,0) false],
+     [Tok.share 3 (1,1) false, Tok.result 3 true, Tok.metaUpd 2 g2, Tok.started 2 2 g2, Tok.req 2 g2],
+     [Tok.share 2 (0,0) false], [Tok.share 2 (0,1) false], [Tok.share 2 (1,0) false],
+     [Tok.share 2 (1,1) false, Tok.result 2 false, Tok.mark 2]] := by decide
+
+set_option maxRecDepth 100000 in
+example : accepts34 s0 h2 = true := by decide
+
+/-- the monitor is not trivially accepting: in the state after `h1` (block 3 in progress, limit 1) a start
+    of block 2 is rejected (over the limit), and so is a start of block 1 (not the highest, outside the window) -/
+example : Lumina.Spec.C34.specOK (view34 (run s0 h1).1) (.setNumPrunable 0) [Tok.metaUpd 2 g2] = false := by decide
+example : Lumina.Spec.C34.specOK (view34 (run s0 h1).1) (.setNumPrunable 0) [Tok.metaUpd 1 g2] = false := by decide
+
+/-- pruner backlog: with 512 prunable blocks reported and everything up to 3 prunable, nothing starts;
+    when the backlog drops to 511 the newest block starts -/
+def h3 : List (Ev × List (List (Nat × Nat))) :=
+  [(.setNumPrunable 512, []), (.setHighestPrunable 3, []), (.insert 1 3, []), (.peers 1, [[]]), (.setNumPrunable 511, [[], []])]
+
+set_option maxRecDepth 100000 in
+example : (run s0 h3).2 = [[], [], [], [Tok.scan], [Tok.metaUpd 3 g2, Tok.started 3 2 g2, Tok.req 3 g2]] := by decide
+
+/-- a non-initial state satisfying the hypotheses of `step_accepted` -/
+example : StateOK (run s0 h2).1 := (run_ok h2 s0 (init_ok 1 1 16 hdr0) (by decide)).2
 
 end Lumina.Props.C34
